@@ -72,10 +72,10 @@ prop = Prop(
     level_note=(
         "Only interleavings expressible as delays of connector deploy/undeploy/calls and request start offsets; only histories "
         "real callers produce (one racing undeploy_all; undeploy(d) only in quiesced phases). Liveness is 'no request pending at "
-        "quiescence of a finite history'. Real connectors (docker, ssh...) are replaced by in-memory fakes. Eight root causes "
-        "found on the pinned tree are listed as known findings (four reachable without any undeploy race); symptoms that follow an "
-        "undeploy/deploy overlap are bucketed by the overlap's kind (C26:undeploy-race:*), so a new defect that only shows inside "
-        "such a race could hide behind them."
+        "quiescence of a finite history'. Real connectors (docker, ssh...) are replaced by in-memory fakes. Of eight root "
+        "causes found on the pinned tree the four reachable without any undeploy race are fixed (regress-*.json replays); the four "
+        "undeploy/deploy overlap defects are known findings, and every symptom that follows such an overlap is reported under the "
+        "overlap's kind (C26:undeploy-race:*), so a new defect that only shows inside such a race would hide behind them."
     ),
     assumptions=[
         "connector deploy/undeploy/calls may take arbitrarily long relative to each other (sound delay model)",
